@@ -70,6 +70,13 @@ func c13Run(t *fw.T) {
 		delivered = data[:cs.FailAt]
 	}
 	cs.Chunks = gen.Schedule(r, len(delivered), maxChunk)
+	if r.Intn(16) == 0 {
+		// a long run of zero-length reads in front of a chunk or of the end: they carry no information, results stay the same
+		at := r.Intn(len(cs.Chunks) + 1)
+		run := make([]int, gen.Pick(r, []int{20, 99, 100, 101, 130, 300}))
+		cs.Chunks = append(cs.Chunks[:at:at], append(run, cs.Chunks[at:]...)...)
+		t.Count("schedules.with_long_zero_run", 1)
+	}
 	cs.WithLast = r.Intn(2) == 0
 	cs.Free = gen.Pick(r, []string{"never", "immediate", "delayed", "bulk", "random"})
 	t.Desc(cs)
@@ -218,6 +225,10 @@ func c13Run(t *fw.T) {
 			if r.Intn(3) == 0 {
 				k = r.Intn(4)
 			}
+			if m.pos > m.start && r.Intn(6) == 0 {
+				k = -1 - r.Intn(m.pos-m.start) // look-behind inside the current token (as js/lex.go does on parse.Input)
+				t.Count("peek.negative", 1)
+			}
 			rec(fmt.Sprintf("Peek(%d)", k))
 			got, want := z.Peek(k), m.peek(k)
 			if got != want {
@@ -287,6 +298,11 @@ func c13Run(t *fw.T) {
 			checkState("Move")
 		case 7: // Rewind
 			p := r.Intn(m.pos - m.start + 1)
+			if loaded > m.pos && r.Intn(3) == 0 {
+				// forward, to a mark taken earlier: anywhere up to the end of what has been peeked
+				p = m.pos - m.start + 1 + r.Intn(loaded-m.pos)
+				t.Count("rewind.forward", 1)
+			}
 			rec(fmt.Sprintf("Rewind(%d)", p))
 			z.Rewind(p)
 			m.pos = m.start + p
